@@ -204,7 +204,12 @@ def C05(ctx):
         raise Broken('family K contains a case WireSem does not find ambiguous: ' + bad[0]['key'])
     ctx.res.cov['exhaustive'] = not ctx.quick
     if ctx.quick:
-        cases = ctx.sample(cases, 700)
+        # the sample keeps at least one program of every (pair of source kinds, placement) class
+        first = {}
+        for c in sorted(cases, key=lambda c: c['key']):
+            first.setdefault('/'.join(c['key'].split('/')[2:4]), c['key'])
+        keep = set(first.values())
+        cases = ctx.sample(cases, 700, must=lambda c: c['key'] in keep)
     cases += ctx.export('FamilyX(p, {"same-set-twice-direct", "same-set-twice-in-set", "inline-set-conflict", "same-provider-twice-direct", "same-provider-twice-in-set", "blank-param-conflicts-with-set", "unnamed-param-conflicts-with-set", "multi-name-var-sets-conflict"})')
     ctx.design_analyze(cases, limit=500 if ctx.quick else 1200, label='family K ')
     ctx.run(cases, runtime=False, check=True)
